@@ -88,6 +88,8 @@ func c04(c *Ctx) {
 			c.R.Harness("driver panic in work item: " + firstLines(pn, 12))
 		}
 	}
+	// helper types in an imported file (generated together / one invocation per file)
+	c04split(c, "c04s", "codec-split")
 	n, reps := lab.RaceReports(c.Scratch + "/race-c04")
 	c.R.Count("race_reports", n)
 	for _, r := range reps {
